@@ -549,6 +549,9 @@ package main
 //@   nopanic
 //@   safe
 //@   assert at call store.TopicsPersistenceInterface.Delete#1 [C03] paused_before_delete: topicBlocked(t)
+// (C01: a topic is taken out of the hub's table only once it refuses publishes - otherwise the instance being unloaded
+// and the instance loaded next would both number messages from the same stored counter)
+//@   assert at call topicDel [C01,C03] blocked_before_unregistered: topicBlocked(t)
 // (a deletion that the store refuses leaves the topic running: it is not left paused - a paused topic answers 503 to
 // every subscribe and leave and ignores terminating sessions for good)
 //@   assert at call ErrUnknownReply#1 [C14] refused_delete_unpauses: (t.status & topicStatusPaused) == 0
